@@ -206,6 +206,11 @@ def check(an: Analysis) -> None:
         ok = isinstance(a, ast.Call) and is_name(a.func, "getattr") and len(a.args) == 3 and is_name(a.args[0], src_param) and isinstance(a.args[1], ast.Constant) and a.args[1].value == "__name__"
         if not ok:
             ob.fail(stream, c, "the stream scope is not named after the source generator")
+        # the stream's scope supplies no state and no disposables of its own: it is entered in the *consumer's* context and stays
+        # entered between items - anything it supplied would sit on top of the consumer's own state while the stream is open
+        extra_state = [x for x in c.args[1:]] + [k for k in c.keywords if k.arg in ("state", "disposables") and not (isinstance(k.value, ast.Constant) and k.value.value is None) and not (isinstance(k.value, ast.Tuple) and not k.value.elts)]
+        if an.callee(stream, c) == "haiway.context.access.ctx.scope" and extra_state:
+            ob.fail(stream, c, "the stream's scope is given state / disposables: entered in the consumer's context, it overrides what the consumer sees between items")
     rets = [r for r in stream.own_nodes() if isinstance(r, ast.Return)]
     for r in rets:
         ob.inst(stream, r)
